@@ -28,38 +28,49 @@ def _build(case, seed, top=None, defer=False):
     top = md.Topology() if top is None else top
     ch = top.add_chain()
     rev = bool(case["walk"]) and case["walk"][0][0] > case["walk"][0][1]
-    where = seed % 3          # the ligand comes before, between or after the two waters: atom indices of the molecules vary
+    where = seed % 4          # the ligand comes before, between or after the two waters, or (3) its atoms are INTERLEAVED with a water's
+    orgs = [np.floor(rs.rand(3) @ cell) + rs.randint(-2, 3, size=3) @ cell for _ in range(2)]
+    wshift = [[rs.randint(-1, 2, size=3) @ cell for _ in range(3)] for _ in range(2)]
+    # creation order of the atoms: ("L", k) ligand atom k, ("W", w, k) atom k of water w
+    if where == 3:
+        order = [("L", 0), ("W", 0, 0), ("L", 1), ("W", 0, 1), ("L", 2), ("W", 0, 2), ("L", 3)] + [("W", 1, k) for k in range(3)]
+    else:
+        blocks = [[("W", 0, k) for k in range(3)], [("W", 1, k) for k in range(3)]]
+        blocks.insert(where, [("L", k) for k in range(4)])
+        order = [x for blk in blocks for x in blk]
+    resobj = {}
+    atoms = {}
     pos = []
-    off = 0
-    for slot in range(3):
-        if slot == where:
-            off = len(pos)
-            res = top.add_residue("LIG", ch)
-            atoms = [top.add_atom("C%d" % i, md.element.carbon, res) for i in range(4)]
-            deferred = None
-            for bi, b in enumerate(case["bonds"]):
-                i, j = b[0] - 1, b[1] - 1
-                if (seed + i + j) % 2 or rev:
-                    i, j = j, i
-                if defer and bi == len(case["bonds"]) - 1:
-                    deferred = (atoms[i], atoms[j])           # added in place later, after a first round of re-imaging
-                else:
-                    top.add_bond(atoms[i], atoms[j])
-            pos += [np.array(p, dtype=float) for p in case["pos0"]]
-        if slot < 2:
-            # two scrambled waters so that image_molecules has other molecules to place
-            r = top.add_residue("HOH", ch)
-            wa = [top.add_atom(n, md.element.oxygen if n == "O" else md.element.hydrogen, r) for n in ("O", "H1", "H2")]
-            top.add_bond(wa[0], wa[1]); top.add_bond(wa[0], wa[2])
-            org = np.floor(rs.rand(3) @ cell) + rs.randint(-2, 3, size=3) @ cell
-            for k in range(3):
-                pos.append(org + WATER[k] + rs.randint(-1, 2, size=3) @ cell)
+    for item in order:
+        key = item[:1] if item[0] == "L" else item[:2]
+        if key not in resobj:
+            resobj[key] = top.add_residue("LIG" if item[0] == "L" else "HOH", ch)
+        if item[0] == "L":
+            atoms[item] = top.add_atom("C%d" % item[1], md.element.carbon, resobj[key])
+            pos.append(np.array(case["pos0"][item[1]], dtype=float))
+        else:
+            nm = ("O", "H1", "H2")[item[2]]
+            atoms[item] = top.add_atom(nm, md.element.oxygen if nm == "O" else md.element.hydrogen, resobj[key])
+            pos.append(orgs[item[1]] + WATER[item[2]] + wshift[item[1]][item[2]])
+    lig = [atoms[("L", k)].index for k in range(4)]
+    deferred = None
+    for bi, bnd in enumerate(case["bonds"]):
+        i, j = bnd[0] - 1, bnd[1] - 1
+        if (seed + i + j) % 2 or rev:
+            i, j = j, i
+        if defer and bi == len(case["bonds"]) - 1:
+            deferred = (atoms[("L", i)], atoms[("L", j)])           # added in place later, after a first round of re-imaging
+        else:
+            top.add_bond(atoms[("L", i)], atoms[("L", j)])
+    for w in range(2):
+        top.add_bond(atoms[("W", w, 0)], atoms[("W", w, 1)]); top.add_bond(atoms[("W", w, 0)], atoms[("W", w, 2)])
+    ligres = resobj[("L",)].index
     pos = np.array(pos)
     nfr = 2
     xyz = np.stack([pos, pos + (rs.randint(-1, 2, size=(len(pos), 3)) @ cell)]) * G
     t = md.Trajectory(xyz.astype(np.float32), top, time=np.array([3.0, 4.5]))
     t.unitcell_vectors = np.stack([cell * G] * nfr).astype(np.float32)
-    return t, cell, off, where, deferred
+    return t, cell, lig, ligres, deferred
 
 
 def _lattice_coefs(delta_units, cell):
@@ -69,7 +80,7 @@ def _lattice_coefs(delta_units, cell):
 def _replay(task):
     import mdtraj as md
     case, seed = task[0], task[1]
-    t, cell, off, where, deferred = _build(case, seed, task[2] if len(task) > 2 else None, defer=(seed % 4 == 1))
+    t, cell, lig, where, deferred = _build(case, seed, task[2] if len(task) > 2 else None, defer=(seed % 4 == 1))
     if deferred is not None:
         # object history: the trajectory is re-imaged once while the ligand is still two fragments, then the missing bond is added to
         # its topology IN PLACE; everything below must see the molecule as it is now
@@ -85,7 +96,7 @@ def _replay(task):
     d_before = md.compute_distances(t, allpairs, periodic=True)
     mind = {}
     for b, m in zip(case["bonds"], case["mind2"]):
-        mind[(b[0] - 1 + off, b[1] - 1 + off)] = m
+        mind[tuple(sorted((lig[b[0] - 1], lig[b[1] - 1])))] = m
     # ---------------- make_molecules_whole ------------------------------------------------------------
     try:
         w = t.make_molecules_whole(inplace=False)
